@@ -91,6 +91,9 @@ func OpClass(ev Event, pre *State) string {
 	s := ev.Op
 	if ev.Op == "del" {
 		s += fmt.Sprintf("-r%d-d%d", b2i(ev.Rec), b2i(ev.Data))
+		if ev.Ign {
+			s += "-ignerr"
+		}
 	}
 	s += "|src=" + kindClass(pre, ev.P)
 	if ev.Op == "mv" || ev.Op == "ln" {
